@@ -91,11 +91,20 @@ def funcmode_part(rep):
     ex, outs, pr = run(asg, 'beartype/claw/_ast/_kind/clawastassign.py', 'BeartypeNodeTransformerAssignMixin.visit_AnnAssign' if hasattr(asg, 'BeartypeNodeTransformerAssignMixin') else 'visit_AnnAssign', (VObj(SELF), VObj(NODE)), mk,
                        pre=(M.inst(SCOPES, uni.const(list)), M.len_(SCOPES) >= 1))     # the scope stack always holds the module scope
     pep526 = M.truthy(fld('claw_is_pep526', CONF)); hasval = M.truthy(VALUE)
-    tgt_ok = z3.Or(M.inst(TARGET, C(ast.Name)), M.inst(TARGET, C(ast.Attribute)))
+    # the property: "after every annotated assignment that has a value outside class bodies" - to names, attributes AND subscripts
+    tgt_ok = z3.Or(M.inst(TARGET, C(ast.Name)), M.inst(TARGET, C(ast.Attribute)), M.inst(TARGET, C(ast.Subscript)))
+    pre_t = z3.Or(M.inst(TARGET, C(ast.Name)), M.inst(TARGET, C(ast.Attribute)), M.inst(TARGET, C(ast.Subscript)))      # the grammar allows nothing else as target
     for i, (s, v) in enumerate(outs):
         added = isinstance(v, VTup) and len(v.items) == 2
-        r = pr.prove(list(s.pc), z3.BoolVal(added) == z3.And(pep526, hasval, z3.Not(inclass), tgt_ok))
-        rep.add(f'C05.visit_AnnAssign.post.check_added_iff.path{i}', r.status, time=r.time, backend=r.backend, where='die_if_unbearable(...) follows exactly the annotated assignments that have a value, lie outside class bodies and target a name or attribute, when claw_is_pep526 is on')
+        issub = any(c.eq(M.inst(TARGET, C(ast.Subscript))) for c in s.pc) or False
+        r = pr.prove(list(s.pc) + [pre_t], z3.BoolVal(added) == z3.And(pep526, hasval, z3.Not(inclass), tgt_ok))
+        # which target kind makes the clause fail (names the obligation, so that known findings stay specific)
+        kind = ''
+        if r.status == 'refuted':
+            for nm, cls_ in (('name', ast.Name), ('attribute', ast.Attribute), ('subscript', ast.Subscript)):
+                r2 = pr.prove(list(s.pc) + [pre_t, M.inst(TARGET, C(cls_))], z3.BoolVal(added) == z3.And(pep526, hasval, z3.Not(inclass)))
+                if r2.status == 'refuted': kind += '.' + nm
+        rep.add(f'C05.visit_AnnAssign.post.check_added_iff{kind}.path{i}', r.status, time=r.time, backend=r.backend, where='die_if_unbearable(...) follows exactly the annotated assignments that have a value and lie outside class bodies (targets: names, attributes, subscripts), when claw_is_pep526 is on')
         if added:
             calls = [e for e in s.events if e[0] == 'callee' and e[1] == 'make_node_call_expr']
             ok = len(calls) == 1 and isinstance(v.items[0], VObj) and v.items[0].t.eq(NODE)
@@ -201,11 +210,11 @@ def check_transformed(src, conf, confname):
                 if not in_class and is_typed(ch): acc.append(('deco', ch._orig_id, 'func'))
                 walk(ch, False, acc)
             elif isinstance(ch, ast.AnnAssign):
-                if conf.claw_is_pep526 and ch.value is not None and not in_class and isinstance(ch.target, (ast.Name, ast.Attribute)): acc.append(('raiser', ch._orig_id))
+                if conf.claw_is_pep526 and ch.value is not None and not in_class and isinstance(ch.target, (ast.Name, ast.Attribute, ast.Subscript)): acc.append(('raiser', ch._orig_id, type(ch.target).__name__))
                 walk(ch, in_class, acc)
             else: walk(ch, in_class, acc)
     expected = []; walk(tree if False else out, False, expected)   # `out` carries the original ids; structure of original nodes is unchanged if (1) holds
-    exp_deco = {e[1]: e[2] for e in expected if e[0] == 'deco'}; exp_raiser = {e[1] for e in expected if e[0] == 'raiser'}
+    exp_deco = {e[1]: e[2] for e in expected if e[0] == 'deco'}; exp_raiser = {e[1] for e in expected if e[0] == 'raiser'}; raiser_kind = {e[1]: e[2] for e in expected if e[0] == 'raiser'}
     def is_bt(d): return (isinstance(d, ast.Name) and d.id == '__beartype__') or (isinstance(d, ast.Call) and isinstance(d.func, ast.Name) and d.func.id == '__beartype__')
     for n in ast.walk(out):
         if isinstance(n, (ast.ClassDef, ast.FunctionDef, ast.AsyncFunctionDef)):
@@ -236,7 +245,7 @@ def check_transformed(src, conf, confname):
                     elif st.lineno != prev.lineno: fails.append('added check does not carry the line number of its assignment')
                 if isinstance(st, ast.AnnAssign) and getattr(st, '_orig_id', None) in exp_raiser:
                     nx = lst[i + 1] if i + 1 < len(lst) else None
-                    if not (nx is not None and getattr(nx, '_orig_id', None) is None and isinstance(nx, ast.Expr)): fails.append(f'annotated assignment at line {st.lineno} is not followed by its check')
+                    if not (nx is not None and getattr(nx, '_orig_id', None) is None and isinstance(nx, ast.Expr)): fails.append(f'annotated assignment to a {raiser_kind[st._orig_id]} target is not followed by its check (line {st.lineno})')
     # (3) exactly one import, after the docstring and the __future__ imports
     body = out.body; q = 0
     while q < len(body) and getattr(body[q], '_orig_id', None) is not None and ((isinstance(body[q], ast.Expr) and isinstance(body[q].value, ast.Constant)) or (isinstance(body[q], ast.ImportFrom) and body[q].module == '__future__')): q += 1
